@@ -194,7 +194,11 @@ func (i *input) lex() {
 					return
 				}
 				if hasEscape && c == '\\' {
-					i.readRune() // Eat escape.
+					e := i.readRune() // Eat escape.
+					if isDocString {
+						// The escape character is part of the docstring's text.
+						content.WriteRune(e)
+					}
 				} else if i.match(quote) {
 					break
 				} else if (i.lang == language.JavaScript || i.lang == language.Perl) && c == '\n' {
